@@ -20,6 +20,14 @@ class Types:
     def __init__(self, astq):
         self.structs = {}
         self.enums = {}
+        # free helper functions without emission sites (candidates for inlining when they take an IR object)
+        self.pure_fns = {}
+        self.by_name = {}
+        for f in astq['functions']:
+            self.by_name.setdefault(f['name'], []).append(f)
+        for f in astq['functions']:
+            if not f.get('self_ty') and not f.get('sites') and not f.get('nested_in'):
+                self.pure_fns.setdefault(f['name'], f)
         for i in astq['items']:
             if i['kind'] == 'struct':
                 self.structs[i['name']] = {f['name']: f['ty'] for f in i['fields']}
@@ -87,6 +95,55 @@ class Types:
 
 IDENT_TRANSPARENT = vt.TRANSPARENT_CALLS | {'&'}
 
+SEQ_TRANSPARENT = {'collect', 'collect_vec', 'iter', 'into_iter', 'sorted', 'cloned', 'copied', 'rev', 'unique', 'filter', 'skip', 'take', 'dedup',
+                   'to_vec', 'as_slice', 'peekable', 'inspect', 'by_ref', 'iter_mut'}
+
+
+def elem_source(v, depth=0):
+    """For an `elem` node (element of an iterated collection): the value each element was built from, when the
+    collection is a local map(closure)/zip(..) pipeline; else None."""
+    if depth > 20 or not isinstance(v, dict):
+        return None
+    src = v.get('of') if v.get('k') == 'elem' else v
+    while isinstance(src, dict):
+        kk = src.get('k')
+        if kk in ('var', 'try', 'some'):
+            src = src['v']
+            continue
+        if kk == 'call' and src.get('f') in SEQ_TRANSPARENT and src.get('recv') is not None:
+            src = src['recv']
+            continue
+        if kk == 'call' and src.get('f') in ('map', 'filter_map') and src.get('args'):
+            clo = vt.strip(src['args'][0])
+            if isinstance(clo, dict) and clo.get('k') == 'closure' and isinstance(clo.get('body'), dict) and clo['body'].get('k') != 'big':
+                return clo['body']
+            return None
+        if kk == 'call' and src.get('f') == 'zip' and src.get('args'):
+            a = {'k': 'elem', 'of': src['recv']}
+            b = {'k': 'elem', 'of': src['args'][0]}
+            return {'k': 'tuple', 'items': [elem_source(a, depth + 1) or a, elem_source(b, depth + 1) or b]}
+        return None
+    return None
+
+
+def resolve_proj(v, depth=0):
+    """Resolve tuple projections over locally built sequences: field(elem(..), "0") -> the tuple component."""
+    if depth > 20 or not isinstance(v, dict):
+        return None
+    if v.get('k') == 'elem':
+        return elem_source(v, depth + 1)
+    if v.get('k') == 'field' and str(v.get('name', '')).isdigit():
+        b = v.get('base')
+        rb = resolve_proj(b, depth + 1) if isinstance(b, dict) else None
+        cand = rb if rb is not None else b
+        while isinstance(cand, dict) and cand.get('k') in ('var', 'try', 'some'):
+            cand = cand['v']
+        if isinstance(cand, dict) and cand.get('k') == 'tuple':
+            i = int(v['name'])
+            if i < len(cand.get('items', [])):
+                return cand['items'][i]
+    return None
+
 
 def flatten(T, v, depth=0, limit=64):
     """Alternatives of component sequences (conditions dropped); see flatten_c."""
@@ -129,6 +186,10 @@ def _source_items(T, v, depth, limit):
         for c, sq in flatten_c(T, v, depth + 1, limit):
             out.append((c, sq))
         return out
+    if kk == 'field':
+        rf = field_of_call(T, v)
+        if rf is not None:
+            return _source_items(T, rf, depth + 1, limit)
     return None
 
 
@@ -186,6 +247,21 @@ def flatten_c(T, v, depth=0, limit=64):
         if f in IDENT_TRANSPARENT:
             inner = v.get('recv') if v.get('recv') is not None else (v['args'][0] if v.get('args') else None)
             return flatten_c(T, inner, depth + 1, limit)
+        if v.get('recv') is None and f in T.pure_fns and depth < 30:
+            fn = T.pure_fns[f]
+            params = [p['name'] for p in fn['params']]
+            args = v.get('args', [])
+            takes_object = False
+            for a in args:
+                ca = T.canon(a)
+                if ca is not None and ca[1] == [] and ca[0] in OWNERS and ca[0] != 'Id':
+                    takes_object = True
+            if takes_object and len(params) == len(args):
+                env = dict(zip(params, args))
+                out = []
+                for body in [fn['tail']] + [r['v'] for r in fn.get('returns', []) if r.get('v')]:
+                    out.extend(flatten_c(T, subst(body, env), depth + 1, limit))
+                return [(c2, sq) for c2, sq in out if sq or True][:limit]
         if f in ('join', 'join_with', 'concat'):
             items = _source_items(T, v.get('recv'), depth + 1, limit)
             if items is not None:
@@ -204,6 +280,14 @@ def flatten_c(T, v, depth=0, limit=64):
             return [((), [('opaque', vt.show(v)[:80])])]
         sub = flatten_c(T, subject, depth + 1, limit)
         return [(c2, [(('atom', x[1], x[2] + (f,)) if x[0] == 'atom' else (('lit*', x[1], f) if x[0] == 'lit' else x)) for x in sq]) for c2, sq in sub]
+    if kk in ('elem', 'field'):
+        rp = resolve_proj(v)
+        if rp is not None:
+            return flatten_c(T, rp, depth + 1, limit)
+    if kk == 'field':
+        rf = field_of_call(T, v)
+        if rf is not None:
+            return flatten_c(T, rf, depth + 1, limit)
     c = T.canon_s(v)
     if c is not None:
         return [((), [('atom', c, ())])]
@@ -311,3 +395,74 @@ def canons_in(T, v):
             if c:
                 out.append(c)
     return out
+
+
+def caller_env_deep(fns, g, depth=3):
+    """Bind g's parameters to caller arguments when every in-backend caller passes the same value; values that are
+    themselves parameters of the (single) caller are resolved recursively."""
+    params = [p['name'] for p in g['params'] if p['name'] != 'self']
+    callers = []
+    for f in fns:
+        for c in f['calls']:
+            if c.get('f') == g['name'] and c.get('recv') is not None and len(c.get('args', [])) == len(params):
+                callers.append((f, dict(zip(params, c['args']))))
+    if not callers:
+        return {}
+    out = {}
+    for p in params:
+        vals = [e[p] for _, e in callers]
+        first = vt.strip(vals[0])
+        same = all(sig(vt.strip(v)) == sig(first) for v in vals)
+        if same:
+            out[p] = vals[0]
+    if depth > 0:
+        cf = {id(f): f for f, _ in callers}
+        if len(cf) == 1:
+            f = callers[0][0]
+            up = caller_env_deep(fns, f, depth - 1)
+            if up:
+                out = {k2: subst(v, up) for k2, v in out.items()}
+    return out
+
+
+def sig(v):
+    """Structural signature of a value tree ignoring source positions."""
+    import json as _j
+
+    def clean(x):
+        if isinstance(x, dict):
+            return {k2: clean(y) for k2, y in x.items() if k2 not in ('line', 'id', 'recv_text')}
+        if isinstance(x, list):
+            return [clean(y) for y in x]
+        return x
+    return _j.dumps(clean(v), sort_keys=True)
+
+
+def field_of_call(T, v):
+    """`self.helper(..)?.field` where helper returns Ok(Struct { field: value, .. }): the value, with the helper's
+    parameters replaced by the call's arguments."""
+    b = v.get('base')
+    while isinstance(b, dict) and b.get('k') in ('var', 'try', 'some'):
+        b = b['v']
+    if not (isinstance(b, dict) and b.get('k') == 'call' and b.get('recv') is not None):
+        return None
+    cands = [f for f in T.by_name.get(b.get('f'), []) if f.get('self_ty')]
+    rc = T.canon(b['recv']) if isinstance(b.get('recv'), dict) else None
+    if rc is not None and len(cands) > 1:
+        cands = [f for f in cands if (f.get('self_ty') or '').split('<')[0] == rc[0]]
+    if len(cands) != 1:
+        return None
+    g = cands[0]
+    t = g['tail']
+    while isinstance(t, dict) and t.get('k') in ('var', 'try', 'some'):
+        t = t['v']
+    if isinstance(t, dict) and t.get('k') == 'call' and t.get('f') == 'Ok' and t.get('args'):
+        t = t['args'][0]
+        while isinstance(t, dict) and t.get('k') in ('var', 'try', 'some'):
+            t = t['v']
+    if not (isinstance(t, dict) and t.get('k') == 'struct' and v.get('name') in t.get('fields', {})):
+        return None
+    params = [p['name'] for p in g['params'] if p['name'] != 'self']
+    env = dict(zip(params, b.get('args', []))) if len(params) == len(b.get('args', [])) else {}
+    val = t['fields'][v['name']]
+    return subst(val, env) if env else val
